@@ -15,6 +15,7 @@ def gen_type(rng, depth, ctx):
     if depth > 0:
         opts += ['option', 'vec', 'box', 'tuple2', 'tuple1', 'array', 'hashmap', 'btreemap', 'pathvec', 'pathopt', 'phantom', 'unit', 'tuple3', 'constarg']
         if ctx['lt']: opts += ['optref', 'vecref', 'optreftuple', 'cow', 'cow', 'bareref']
+        if ctx['lt'] and ctx['tparams']: opts += ['optref_tparam']
         if ctx.get('lt2'): opts += ['optref2', 'optref2', 'optref2b']
         if ctx['constn']: opts += ['arrayn']
     k = rng.choice(opts)
@@ -28,6 +29,9 @@ def gen_type(rng, depth, ctx):
     if k == 'tuple3': return f"({sub()}, {sub()}, {sub()},)"
     if k == 'tuple1': return f"({sub()},)"
     if k == 'unit': return "()"
+    if k == 'optref_tparam':        # a type parameter that occurs only behind a reference inside another type (repair of D8): the harness makes &'static T
+        tp = _pick(rng, ctx); ctx.setdefault('need_static', set()).add(tp); ctx['used'].add("'" + ctx['lt'])
+        return rng.choice([f"Option<&'{ctx['lt']} {tp}>", f"Vec<(&'{ctx['lt']} {tp}, u8)>", f"Option<&'{ctx['lt']} [{tp}; 2]>"])
     if k == 'bareref':
         ctx['used'].add("'" + ctx['lt']); return rng.choice([f"&'{ctx['lt']} {rng.choice(BASE)}", f"&'{ctx['lt']} ({rng.choice(BASE)}, {rng.choice(BASE)})", f"&'{ctx['lt']} Vec<{rng.choice(BASE)}>"])      # a field that is itself a reference (repair of D9)
     if k == 'constarg': return rng.choice([f"CArr<{rng.choice(BASE)}, {rng.choice(LEN_SPELLINGS)}>", "CNeg<-1>", "CNeg<-0x10>", "CCh<'x'>", f"Option<CArr<{rng.choice(BASE)}, 2>>", "CNeg<7>"])
